@@ -131,7 +131,9 @@ pub fn run_op(line: &str) -> String {
             let mut script = Vec::new();
             if toks[2] != "-" {
                 for it in toks[2].split(',') {
-                    script.push(if it == "p" {
+                    script.push(if it == "g" {
+                        WItem::Gather
+                    } else if it == "p" {
                         WItem::Pending
                     } else if it == "z" {
                         WItem::Zero
